@@ -117,10 +117,10 @@ func runC11(c *Ctx) {
 	var asc []Variant
 	for _, o := range objects {
 		asc = append(asc, Variant{
-			Name: fmt.Sprintf("object=%d", o),
-			Dom:  map[string]Dom{"v.Object": {W: 5, Hi: -1}, "v.SampleRate": {W: 4, Lo: 1, Hi: 12}, "v.Channels": {W: 4, Lo: 1, Hi: 7}},
-			Bind: map[string]int64{"v.Object": o},
-			Spec: abs.Cat(abs.Pack(abs.K(5, uint64(o)), abs.F("v.SampleRate", 3, 1)), abs.Pack(abs.F("v.SampleRate", 0, 0), abs.F("v.Channels", 3, 0), abs.X(3))),
+			Name:   fmt.Sprintf("object=%d", o),
+			Dom:    map[string]Dom{"v.Object": {W: 5, Hi: -1}, "v.SampleRate": {W: 4, Lo: 1, Hi: 12}, "v.Channels": {W: 4, Lo: 1, Hi: 7}},
+			Bind:   map[string]int64{"v.Object": o},
+			Spec:   abs.Cat(abs.Pack(abs.K(5, uint64(o)), abs.F("v.SampleRate", 3, 1)), abs.Pack(abs.F("v.SampleRate", 0, 0), abs.F("v.Channels", 3, 0), abs.X(3))),
 			Fields: map[string]Want{"Object": {Const: cst(o)}, "SampleRate": {Atom: "v.SampleRate", Width: 4}, "Channels": {Atom: "v.Channels", Width: 4}},
 		})
 	}
